@@ -25,6 +25,8 @@ def value(i):
     if i % 11 == 7:
         e = -46 if i % 2 else 39
     tail = "00049" if i % 4 == 3 else ""
+    if i == 9:
+        return float("inf")      # an overflowed grid point as C's %e writes it ("inf"): first on its line for row lengths 1 and 2
     return (-1 if i % 2 else 1) * float(f"{m:.2f}{tail}e{e:+d}")
 
 
@@ -83,6 +85,8 @@ def pqr_text(natoms, style=0):
 
 
 def close(a, b, rel=6e-6, ab=6e-7):
+    if math.isinf(a) or math.isinf(b):
+        return a == b
     return abs(a - b) <= max(ab, rel * abs(b))
 
 
